@@ -131,7 +131,7 @@ class B2(Backend):
     @backoff_reauth
     async def exists(self, name):
         bucket = await self._get_bucket()
-        url = f'{self._auth.downloadUrl}/file/{bucket.name}/{name}'
+        url = f'{self._auth.downloadUrl}/file/{bucket.name}/{quote(name)}'
         headers = {'authorization': self._auth.authorizationToken}
         try:
             await self._client.head(url, headers=headers)
@@ -194,7 +194,7 @@ class B2(Backend):
     @backoff_reauth
     async def download(self, name):
         bucket = await self._get_bucket()
-        url = f'{self._auth.downloadUrl}/file/{bucket.name}/{name}'
+        url = f'{self._auth.downloadUrl}/file/{bucket.name}/{quote(name)}'
         headers = {'authorization': self._auth.authorizationToken}
         response = await self._client.get(url, headers=headers)
         return await response.aread()
@@ -203,7 +203,7 @@ class B2(Backend):
     @backoff_reauth
     async def download_stream(self, name, stream, chunk_size=DEFAULT_STREAM_CHUNK_SIZE):
         bucket = await self._get_bucket()
-        url = f'{self._auth.downloadUrl}/file/{bucket.name}/{name}'
+        url = f'{self._auth.downloadUrl}/file/{bucket.name}/{quote(name)}'
         headers = {'authorization': self._auth.authorizationToken}
 
         async with self._client.stream('GET', url, headers=headers) as response:
